@@ -36,24 +36,26 @@
   12  declarations keep leading/trailing white space of their value (the parser is tinycss2-shaped:
       it works on component values, see Parser.lean).
 
-  DEVIATIONS THAT CONTRADICT THE PROPERTY TEXT (findings; the model follows the SPECIFICATION, the
-  `Quirks` switches reproduce the code so that the harness can attribute a difference exactly):
+  FORMER DEVIATIONS THAT CONTRADICTED THE PROPERTY TEXT (found by this check, repaired in /repo; the
+  model follows the SPECIFICATION and now agrees with the code; the `Quirks` switches reproduce
+  the old behaviour and are kept only so that the harness can name a REGRESSION exactly; the
+  minimal inputs live in /verif/corpus/C06 and are run first):
 
-  F06-1  `-` as last code point of the input (after a number, `@`, `#` or alone): index out of range.
-  F06-2  `Quirks.commentEof`      EOF inside a comment within a block or function: only the innermost
-                                  level stops; the enclosing levels re-tokenize the comment body from
-                                  its `*`.
-  F06-3  `Quirks.badUrlPair`      remnants of a bad url: only the two-character sequence `\)` is
-                                  skipped, so `\\)` does not end the bad url (a following construct is
-                                  swallowed).
-  F06-4  `Quirks.urlBackslashNl`  `\` followed by a newline inside an unquoted url is kept as a
-                                  literal backslash instead of making the url a <bad-url>.
+  F06-1  (e608d15) `-` as last code point of the input (after a number, `@`, `#` or alone): index out
+                   of range.
+  F06-2  (8459ccb) `Quirks.commentEof`      EOF inside a comment within a block or function: only the
+                   innermost level stopped; the enclosing levels re-tokenized the comment body.
+  F06-3  (3ab913e) `Quirks.badUrlPair`      remnants of a bad url: only the two-character sequence `\)`
+                   was skipped, so `\\)` did not end the bad url (a following construct was swallowed).
+  F06-4  (228f7bb) `Quirks.urlBackslashNl`  `\` followed by a newline inside an unquoted url was kept
+                   as a literal backslash instead of making the url a <bad-url>.
 -/
 namespace WR.C06
 
 abbrev Str := List Char
 
-/-- Switches reproducing the known defects of the code; all false = the specification. -/
+/-- Switches reproducing defects the code HAD (see above); all false = the specification = the
+code.  Only used by the harness to attribute a regression. -/
 structure Quirks where
   commentEof : Bool := false
   badUrlPair : Bool := false
